@@ -77,6 +77,11 @@ CHECKS = {
          "depth d = 0..12 chosen by a choice variable with symbolic leaf ints, and E3 for synthesised cyclic topologies (every directed graph "
          "over three dataclasses x edge kind x root container x root class, enumerated exhaustively): construction terminates, every level "
          "is converted, values and the codec round trip.", "4/C07", "CrossHair symbolic execution + exhaustive enumeration of cycle topologies and depths (choice variables), native replay"),
+ "C02": ("E1 for a user-supplied pure-Python tagging encoder/decoder pair (codec(T, encoder, decoder), typelib.encode/decode and the explicit "
+         "composition of marshal/unmarshal with the coder must agree on symbolic valid v) and for the identity coder of bytes on symbolic "
+         "bytes; E3 for the default (orjson) and stdlib json configurations on values assembled from pick-lists by choice variables "
+         "(C encoders cannot be executed symbolically): encoded bytes parse with the standard json module to exactly marshal(v), all three "
+         "entry points agree, decode(encode(v)) restores v.", "4/C02", "CrossHair symbolic execution of the codec wiring + exhaustive enumeration of pick-list values (choice variables), native replay"),
 }
 NA = {
  "C17": "flat catalogue of CPython type objects compared with CPython's own issubclass/typing internals: neither side can be encoded for a solver and there is no value, shape, state or history to make symbolic (DESIGN.md section 7)",
